@@ -19,7 +19,20 @@ func runRegistryModel(o *Options, res *Result, hists [][]regOp) error {
 	sb.WriteString("From DT Require Import Model.Bytes Model.VCase Model.Registry.\nLocal Open Scope list_scope.\n")
 	// the checksum as a finite table over the universe of sources
 	var tab []string
-	for _, s := range c04Sources {
+	srcs := append([]string(nil), c04Sources...)
+	seen := map[string]bool{}
+	for _, s := range srcs {
+		seen[s] = true
+	}
+	for _, ops := range hists {
+		for _, op := range ops {
+			if op.Src != "" && !seen[op.Src] {
+				seen[op.Src] = true
+				srcs = append(srcs, op.Src)
+			}
+		}
+	}
+	for _, s := range srcs {
 		tab = append(tab, fmt.Sprintf("(%s, %d%%N)", gBytes([]byte(s)), crc64.Checksum([]byte(s), crcTab)))
 	}
 	fmt.Fprintf(&sb, "Definition htab : list (bytes * N) := %s.\n", gList(tab))
